@@ -226,7 +226,7 @@ def replace_docstring(source: str, docstr: str, insert_indents=False):
 
         else:   # No docstring
             src_front = source[:first_stmt.first_token.startpos]
-            src_back = source[first_stmt.first_token.startpos:]
+            src_back = "; " + source[first_stmt.first_token.startpos:]
 
         return src_front + docstr + src_back
 
